@@ -338,6 +338,251 @@ def run_ring(ctx):
     })
 
 
+# ---------------------------------------------------------------------------
+# election: scripts run on real Cluster values (package-main overlay driver) and on the model
+
+FLAP = "3 1 T0:-:- Q0,1,1 P0,1,1 T0:-:1 T0:2:12 H0 T0:2:12 H0 T0:-:1 T0:2:12 H0"
+DIVERGE = ("3 1 T0:-:- Q0,1,1 P0,1,1 T0:1:1 T0:1:1 H0 H0 T0:1:1 H0 T1:-:- Q1,2,2 P1,2,2 "
+           + " ".join(["T1:02:02 H0 H0"] * 4))
+
+
+class Mirror:
+    """Rough python mirror of the election model, used ONLY to aim the generator at enabled
+    events (which calls exist, who is electing, how many checks are in flight)."""
+
+    def __init__(self, n, limit):
+        self.n, self.limit = n, limit
+        self.term = [0] * n
+        self.leader = [None] * n
+        self.el = [None] * n
+        self.calls = {}
+        self.hnet = []
+        self.fc = [[0] * n for _ in range(n)]
+
+    def expect(self):
+        return (self.n - 1 + 1) // 2 + 1
+
+    def loop(self, c, vc, i):
+        if i < self.n - 1 and vc < self.expect():
+            self.el[c] = [vc, i]
+        else:
+            self.el[c] = None
+            if vc >= self.expect():
+                self.leader[c] = c
+
+    def apply(self, ev):
+        k, a = ev[0], ev[1:]
+        if k == "T":
+            i, d, ok = a.split(":")
+            i = int(i)
+            if self.el[i]:
+                return
+            if self.leader[i] == i:
+                for p in range(self.n):
+                    if p == i:
+                        continue
+                    if str(p) in d:
+                        self.hnet.append((p, self.term[i]))
+                    self.fc[i][p] = 0 if str(p) in ok else self.fc[i][p] + 1
+            else:
+                self.term[i] += 1
+                self.leader[i] = None
+                for p in range(self.n):
+                    if p != i:
+                        self.calls[(i, self.term[i], p)] = ["req", None]
+                self.loop(i, 1, 0)
+        elif k in "QPXE":
+            c, t, m = [int(x) for x in a.split(",")]
+            call = self.calls.get((c, t, m))
+            if not call:
+                return
+            if k == "Q" and call[0] == "req" and not self.el[m]:
+                if self.term[m] < t:
+                    self.term[m] = t
+                    self.leader[m] = None
+                    call[:] = ["rep", ("y", t)]
+                else:
+                    call[:] = ["rep", ("n", self.term[m])]
+            elif k == "P" and call[0] == "rep":
+                r = call[1]
+                call[0] = "fin"
+                if self.el[c] and self.term[c] == t:
+                    vc, i = self.el[c]
+                    if r[0] == "y":
+                        vc += 1
+                    elif r[0] == "n" and self.term[c] < r[1]:
+                        vc, i = 0, self.n - 1
+                    self.loop(c, vc, i + 1)
+            elif k == "X" and call[0] in ("req", "rep"):
+                call[0] = "fin"
+            elif k == "E" and call[0] in ("req", "rep"):
+                call[:] = ["rep", ("e", 0)]
+        elif k in "HD":
+            j = int(a)
+            if j < len(self.hnet):
+                to, t = self.hnet[j]
+                if k == "H" and self.el[to]:
+                    return
+                del self.hnet[j]
+                if k == "H" and t >= self.term[to]:
+                    self.term[to] = t
+
+
+def gen_scripts(ctx):
+    rng = ctx.rng
+    quick = ctx.tier == "quick"
+    scripts = [FLAP, DIVERGE]
+    for _ in range(40 if quick else 600):
+        n = rng.choice([3, 3, 4, 5])
+        limit = rng.choice([1, 2, 3])
+        m = Mirror(n, limit)
+        evs = []
+        for _ in range(rng.randrange(8, 40 if quick else 70)):
+            opts = []
+            live = [c for c in m.calls if m.calls[c][0] in ("req", "rep")]
+            r = rng.random()
+            if r < 0.3 or not (live or m.hnet):
+                i = rng.randrange(n)
+                # leaders tick more often than the others
+                leaders = [x for x in range(n) if m.leader[x] == x and not m.el[x]]
+                if leaders and rng.random() < 0.6:
+                    i = rng.choice(leaders)
+                others = [str(p) for p in range(n) if p != i]
+                mode = rng.random()
+                if mode < 0.5:
+                    d = ok = "".join(others)
+                else:
+                    d = "".join(p for p in others if rng.random() < 0.7)
+                    ok = "".join(p for p in others if rng.random() < 0.7)
+                ev = "T%d:%s:%s" % (i, d or "-", ok or "-")
+            elif live and (r < 0.85 or not m.hnet):
+                c = rng.choice(live)
+                st = m.calls[c][0]
+                x = rng.random()
+                kind = ("Q" if st == "req" else "P") if x < 0.8 else ("X" if x < 0.9 else "E")
+                if rng.random() < 0.05:
+                    kind = rng.choice("QPXE")
+                ev = "%s%d,%d,%d" % (kind, c[0], c[1], c[2])
+            else:
+                j = rng.randrange(len(m.hnet) + (1 if rng.random() < 0.05 else 0))
+                ev = ("H%d" if rng.random() < 0.85 else "D%d") % j
+            m.apply(ev)
+            evs.append(ev)
+        scripts.append("%d %d %s" % (n, limit, " ".join(evs)))
+    return list(dict.fromkeys(scripts))
+
+
+def parse_obs(ans):
+    """-> list of per-event observations; each a list of (term, leader, ring class, partitioned, active) or 'PANIC...'"""
+    res = []
+    for ev in ans.split("|"):
+        if ev.startswith("PANIC") or ev.startswith("HANG"):
+            res.append(ev)
+        elif ev:
+            nodes = []
+            for i, nd in enumerate(ev.split(";")):
+                t, l, cls, part, act = nd.split(",")
+                nodes.append((int(t), l, cls, part, act))
+            res.append(nodes)
+    return res
+
+
+def election_monitors(scripts, table):
+    fails = []
+    for sc in scripts:
+        a = table.get(sc)
+        if a is None:
+            continue
+        obs = parse_obs(a)
+        prev = None
+        for k, o in enumerate(obs):
+            if isinstance(o, str):
+                if o.startswith("PANIC"):
+                    fails.append(("el-health-panic", sc, "the run loop of a node died at event %d: %s" % (k, o)))
+                else:
+                    fails.append(("el-hang", sc, "a vote request was not answered at event %d" % k))
+                break
+            selfl = {}
+            for i, (t, l, cls, part, act) in enumerate(o):
+                if l == str(i):
+                    if t in selfl:
+                        fails.append(("el-safety", sc, "nodes %d and %d both consider themselves leader in term %d after event %d" % (selfl[t], i, t, k)))
+                    selfl[t] = i
+                if prev is not None and t < prev[i][0]:
+                    fails.append(("el-term-monotone", sc, "term of node %d decreased at event %d" % (i, k)))
+                # a node that answers 502 believes no more than half of the nodes active, and conversely
+                if (2 * len(act) <= len(o)) != (part == "1"):
+                    fails.append(("el-partitioned-iff", sc, "node %d: active %s of %d, partitioned=%s after event %d" % (i, act, len(o), part, k)))
+            prev = o
+        # the closing rounds of the fixed scenario: every node has accepted the leader's checks twice or more
+        if sc == DIVERGE and obs and not isinstance(obs[-1], str):
+            last = obs[-1]
+            lead = [i for i, x in enumerate(last) if x[1] == str(i)]
+            if lead:
+                L = lead[0]
+                for i, x in enumerate(last):
+                    if x[0] == last[L][0] and x[1] == str(L) and x[2] != last[L][2]:
+                        fails.append(("el-ring-diverges", sc,
+                                      "node %d follows leader %d in term %d, has accepted 4 rounds of its health checks, and still has a different ring" % (i, L, x[0])))
+    return fails
+
+
+def run_election(ctx):
+    ok, out = ctx.build_main()
+    if not ok:
+        ctx.violation("corr", "harness-build-broken", "package-main driver no longer builds against /repo: " + out[-1500:],
+                      {"correspondence": "build of harness/overlay against /repo"})
+        return
+    if ctx.replay:
+        rp = json.load(open(ctx.replay))
+        scripts = [r["case"] for r in [rp["replay"]] + rp.get("more_cases", [])
+                   if isinstance(r, dict) and r.get("case") and not r["case"].startswith("G ")]
+    else:
+        scripts = gen_scripts(ctx)
+    if not scripts:
+        return
+    rc, impl, log = ctx.run_main_lines("c17", scripts, timeout=1500)
+    if rc != 0 or len(impl) != len(scripts):
+        ctx.violation("corr", "driver-crashed", "package-main driver failed rc=%s: %s" % (rc, log[-1500:]),
+                      {"correspondence": "driver run", "stderr": log[-3000:]})
+        return
+    rc, model, err = ctx.run_model("c17", scripts)
+    if rc != 0 or len(model) != len(scripts):
+        ctx.violation("proof", "runner-crashed", "model runner failed: " + err[-1500:], {"theorem_or_obligation": "model runner"})
+        return
+    table = dict(zip(scripts, impl))
+    fails = election_monitors(scripts, table)
+    for law, case, detail in fails:
+        ctx.violation("monitor", law, "law %s fails on the implementation: %s (%s)" % (law, case, detail),
+                      {"case": case, "impl": table.get(case), "law": law, "detail": detail})
+    norm = lambda a: "|".join("PANIC" if e.startswith("PANIC") else e for e in a.split("|"))
+    mism = [(c, i, m) for c, i, m in zip(scripts, impl, model) if norm(i) != m]
+    if mism and not [f for f in fails if f[0] not in ("el-health-panic", "el-ring-diverges")]:
+        c, i, m = mism[0]
+        k = next((j for j, (x, y) in enumerate(zip(norm(i).split("|"), m.split("|"))) if x != y), -1)
+        ctx.violation("corr", "correspondence-election",
+                      "election model and the real Cluster code disagree on %d of %d scripts, first at event %d of: %s: impl=%s model=%s"
+                      % (len(mism), len(scripts), k, c, i.split("|")[k] if 0 <= k < len(i.split("|")) else i[-200:],
+                         m.split("|")[k] if 0 <= k < len(m.split("|")) else m[-200:]),
+                      {"correspondence": "projection election (term, leader, ring class, partitioned, active nodes after every event)",
+                       "case": c, "impl": i, "model": m})
+    nev = sum(len(sc.split()) - 2 for sc in scripts)
+    kinds = Counter(e[0] for sc in scripts for e in sc.split()[2:])
+    leaders = sum(1 for sc in scripts for o in parse_obs(table[sc])[-1:] if not isinstance(o, str) and any(x[1] == str(i) for i, x in enumerate(o)))
+    terms = Counter(max(x[0] for x in o) for sc in scripts for o in parse_obs(table[sc])[-1:] if not isinstance(o, str))
+    ctx.coverage["election"] = {
+        "scripts": len(scripts), "events": nev, "events_by_kind": dict(kinds),
+        "scripts_ending_with_a_self_leader": leaders, "max_term_at_end": dict(sorted(terms.items())),
+        "cluster_sizes": dict(Counter(sc.split()[0] for sc in scripts)),
+        "correspondence_mismatches": len(mism), "monitor_failures": len(fails),
+        "rule": "2 fixed scenarios (the findings) + seeded random scripts for 3/4/5 real Cluster values: ticks (vote_after=1), vote requests/replies delivered in any order, lost, failed, health checks delivered in any order or dropped, per-peer delivery/outcome of every leader check; generation aimed at enabled events by a python mirror of the model; no election-timer event (the real timer cannot be injected without a hook: see manifest note)",
+    }
+    ctx.coverage["evaluations"] = ctx.coverage.get("evaluations", 0) + len(scripts)
+    ctx.coverage["traces_validated_against_impl"] = ctx.coverage.get("traces_validated_against_impl", 0) + len(scripts)
+    ctx.coverage.setdefault("trusted_base", []).append(
+        "harness/overlay/server/zz_verif_c17_test.go: real Cluster.run/Health/Vote/electLeader/sendHealthChecks/rehash/isPartitioned; scripted rpc.ClientCodec under the real rpc.Client; the ticker case of run (3 lines) is replayed by the driver with vote_after=1")
+
+
 def run(ctx):
     ctx.coq_props()
     vlib.proof_violation(ctx)
@@ -347,4 +592,5 @@ def run(ctx):
                       {"theorem_or_obligation": "extraction of the model"})
         ctx.finish()
     run_ring(ctx)
+    run_election(ctx)
     ctx.finish()
